@@ -51,6 +51,7 @@ def midstep(p0: int, p1: int, p2: int, p3: int, actor: int, target: int, pn: int
     before = list(m.systems.execution_queue)
     removed = []            # (system, position of the remover in `before`)
     added = []
+    readded = []
 
     def mk(kind, who, tgt, prio, tag):
         def act():
@@ -62,6 +63,12 @@ def midstep(p0: int, p1: int, p2: int, p3: int, actor: int, target: int, pn: int
                 if m.systems.systems.get(tgt.id) is tgt:
                     m.systems.remove_system(tgt.id)
                     removed.append(tgt)
+            elif kind == 'readd':                   # remove a system and register THE SAME object again, with a new priority
+                if m.systems.systems.get(tgt.id) is tgt:
+                    m.systems.remove_system(tgt.id)
+                    tgt.priority = prio
+                    m.systems.add_system(tgt)
+                    readded.append(tgt)
             elif kind == 'replace':                 # remove a system and register a DIFFERENT object under the same id
                 if m.systems.systems.get(tgt.id) is tgt:
                     m.systems.remove_system(tgt.id)
@@ -120,17 +127,27 @@ def midstep(p0: int, p1: int, p2: int, p3: int, actor: int, target: int, pn: int
                 if who is s:
                     if kind == 'self' and s in reg:
                         reg.remove(s)
-                    elif kind in ('remove', 'replace') and tgt in reg:
+                    elif kind in ('remove', 'replace', 'readd') and tgt in reg:
                         reg.remove(tgt)
-    got = [x for x in log if x in before]
+    # a system removed and re-registered in the same timestep counts as newly registered: whether it runs in that
+    # timestep is left open - but it never runs twice (1), and it is left out of the comparison below
+    got = [x for x in log if x in before and x not in readded]
+    exp = [x for x in exp if x not in readded]
     if not hx.same_seq(got, exp):
         return hx.end(hx.fail("systems skipped / run after removal / reordered", log=names(log), expected=names(exp),
                               queue=names(before)))
+    if readded:
+        hx.reach('readded')
     if removed:
         hx.reach('removed')
     if added:
         hx.reach('added')
     # (4) systems added mid-timestep run at most once (covered by (1)); the next timestep is a plain ordered run
+    # (C01) whatever ran in the timestep, also newly registered systems, ran in descending priority order
+    for i in range(len(log) - 1):
+        if log[i] not in readded and log[i + 1] not in readded and log[i].priority < log[i + 1].priority:
+            return hx.end(hx.fail("systems ran out of priority order within the timestep", log=names(log),
+                                  priorities=[x.priority for x in log]))
     if not multi:
         m.execute()
         log_second = list(m.log[cut:])
@@ -158,8 +175,8 @@ ASSUMPTIONS = ["acting systems perform their action at the end of their own exec
 def obligations(tier):
     enc = (SystemManager.execute_systems, SystemManager.add_system, SystemManager.remove_system, System.clean_up)
     ns = (1, 2, 3) if tier == "quick" else (1, 2, 3, 4)
-    parts = [{"n": n, "kinds": [k]} for n in ns for k in ("self", "remove", "add", "replace")]
-    two = [(a, b) for a in ("self", "remove", "add", "replace") for b in ("self", "remove", "add", "replace")]
+    parts = [{"n": n, "kinds": [k]} for n in ns for k in ("self", "remove", "add", "replace", "readd")]
+    two = [(a, b) for a in ("self", "remove", "add", "replace", "readd") for b in ("self", "remove", "add", "replace", "readd")]
     parts += [{"n": n, "kinds": [a, b]} for n in ((2,) if tier == "quick" else (2, 3)) for a, b in two]
     parts += [{"n": 2, "kinds": [k], "multi": True} for k in ("self", "remove", "add", "replace")]
     parts += [{"n": 2, "kinds": [k], "other_model": True} for k in ("self", "remove", "replace")]
@@ -171,8 +188,10 @@ def obligations(tier):
         out = []
         if "self" in ks or "remove" in ks or "replace" in ks:
             out.append("removed")
+        if ks == ["readd"] or ks == ["readd", "readd"]:
+            out.append("readded")
         if "add" in ks or "replace" in ks:
             out.append("added")
         return tuple(out)
-    return [X("midstep", midstep, parts=parts, labels=("removed", "added"), labels_for=lab, timeout=600, group=1,
+    return [X("midstep", midstep, parts=parts, labels=("removed", "added", "readded"), labels_for=lab, timeout=600, group=1,
               encoded=enc, bounds={"n": "1..%d" % ns[-1]})]
